@@ -229,6 +229,7 @@ impl<S: Storage> Builder<S> {
                 let columns = (self.node(list).as_list().iter())
                     .map(|id| self.node(*id).as_column())
                     .collect_vec();
+                let predicate = filter;
                 // analyze range filter
                 let filter = {
                     use std::ops::Bound;
@@ -277,13 +278,24 @@ impl<S: Storage> Builder<S> {
                     }
                     .execute()
                 } else {
-                    TableScanExecutor {
+                    let scan = TableScanExecutor {
                         table_id,
                         columns,
                         filter,
                         storage: self.storage.clone(),
                     }
-                    .execute()
+                    .execute();
+                    // storage only applies what the analysis above recognised as a key range. The
+                    // pushed predicate may have been rewritten into something else (e.g. folded to
+                    // `false`), so it is still evaluated on the scanned rows.
+                    if *self.node(predicate) == Expr::true_() {
+                        scan
+                    } else {
+                        FilterExecutor {
+                            condition: self.resolve_column_index(predicate, id),
+                        }
+                        .execute(scan)
+                    }
                 }
             }
 
